@@ -3,6 +3,7 @@ CONSTANTS
   Family = "M3"
   Depth = 1
   RndN = 5
+  Mutators = FALSE
   RndK = 4
 INVARIANT Emit
 CONSTRAINT Bound
